@@ -27,6 +27,11 @@ TRUSTED_BASE = [
 ]
 
 
+def size(tier, quick, thorough):
+    """number of cases for a tier; "escalate" = the intensified failing-input search after a broken obligation"""
+    return {"quick": quick, "thorough": thorough}.get(tier, 3 * quick)
+
+
 def seed_from_env(default=0):
     try:
         return int(os.environ.get("VERIF_SEED", default))
